@@ -783,7 +783,7 @@ func TestVC03BackendDiff(t *testing.T) {
 	}
 	defer func() { cpu.X86.HasAVX2 = true }()
 	sub := "wb/generic-vs-avx2"
-	rounds := vlib.N(200000, 1500000)
+	rounds := vlib.N(150000, 1500000)
 	// splitmix64: a fixed function of (seed, shard), so the sweep is reproducible
 	state := uint64(vlib.Seed)<<32 ^ uint64(vlib.Shard)<<20 ^ 0x9e3779b97f4a7c15
 	next := func() uint64 {
